@@ -194,7 +194,7 @@ func (po *parserOps) doc(name, doc string, reuse bool, args ...any) Kind {
 		}
 		b := []byte(doc)
 		v, err := po.parse(inst, b, args...)
-		return Out{Res: parseRes(v, err, nil), View: func() any { return held(v, err, nil) }, Scribble: scribbler(b)}
+		return Out{Err: err, Res: parseRes(v, err, nil), View: func() any { return held(v, err, nil) }, Scribble: scribbler(b)}
 	}}
 }
 
@@ -248,7 +248,7 @@ func (po *parserOps) multiX(name, doc, how string, panicAt int, reuse, viaReader
 				}
 			}
 		}
-		return Out{Res: parseRes(v, err, &sink), View: func() any { return held(v, err, &sink) }, Scribble: scribbler(b)}
+		return Out{Err: err, Res: parseRes(v, err, &sink), View: func() any { return held(v, err, &sink) }, Scribble: scribbler(b)}
 	}}
 }
 
@@ -259,7 +259,7 @@ func (po *parserOps) reader(name string, mk func(b []byte) io.Reader, doc string
 		}
 		b := []byte(doc)
 		v, err := po.read(inst, mk(b), args...)
-		return Out{Res: parseRes(v, err, nil), View: func() any { return held(v, err, nil) }, Scribble: scribbler(b)}
+		return Out{Err: err, Res: parseRes(v, err, nil), View: func() any { return held(v, err, nil) }, Scribble: scribbler(b)}
 	}}
 }
 
@@ -281,7 +281,7 @@ func (po *parserOps) unmX(name, doc string, badTarget bool) Kind {
 		} else {
 			err = po.unmarshal(inst, b, &target)
 		}
-		return Out{Res: parseRes(target, err, nil), View: func() any { return held(target, err, nil) }, Scribble: scribbler(b)}
+		return Out{Err: err, Res: parseRes(target, err, nil), View: func() any { return held(target, err, nil) }, Scribble: scribbler(b)}
 	}}
 }
 
@@ -433,14 +433,16 @@ func validatorMenu() []Kind {
 			p := inst.(*oj.Validator)
 			p.OnlyOne = onlyOne
 			b := []byte(doc)
-			return Out{Res: errRes(p.Validate(b), nil), Scribble: scribbler(b)}
+			err := p.Validate(b)
+			return Out{Err: err, Res: errRes(err, nil), Scribble: scribbler(b)}
 		}}
 	}
 	rd := func(name string, mk func([]byte) io.Reader, doc string, onlyOne bool) Kind {
 		return Kind{Name: name, API: "oj.Validator.ValidateReader", Run: func(inst any) Out {
 			p := inst.(*oj.Validator)
 			p.OnlyOne = onlyOne
-			return Out{Res: errRes(p.ValidateReader(mk([]byte(doc))), nil)}
+			err := p.ValidateReader(mk([]byte(doc)))
+			return Out{Err: err, Res: errRes(err, nil)}
 		}}
 	}
 	return []Kind{
@@ -512,7 +514,7 @@ func (to *tokOps) menu(senDocs bool) []Kind {
 			if cls != "" {
 				res["c"] = cls
 			}
-			return Out{Res: res, View: h.snapshot(), Scribble: scribbler(b)}
+			return Out{Err: err, Res: res, View: h.snapshot(), Scribble: scribbler(b)}
 		}}
 	}
 	ldp := func(name string, mk func([]byte) io.Reader, doc string, onlyOne bool, panicAt int) Kind {
@@ -532,7 +534,7 @@ func (to *tokOps) menu(senDocs bool) []Kind {
 			if cls != "" {
 				res["c"] = cls
 			}
-			return Out{Res: res, View: h.snapshot()}
+			return Out{Err: err, Res: res, View: h.snapshot()}
 		}}
 	}
 	ld := func(name string, mk func([]byte) io.Reader, doc string, onlyOne bool) Kind {
@@ -664,7 +666,7 @@ func (wo *wrOps) menu() []Kind {
 			wo.setOpt(inst, o)
 			w := &failW{okWrites: okWrites}
 			err := wo.write(inst, w, data)
-			return Out{Res: outRes("", w.got, err, false), View: func() any {
+			return Out{Err: err, Res: outRes("", w.got, err, false), View: func() any {
 				return map[string]any{"t": "out", "s": "", "w": string(w.got)}
 			}}
 		}}
@@ -704,7 +706,7 @@ func (wo *wrOps) menu() []Kind {
 			return Kind{Name: name, API: wo.prefix + "(as argument)", Run: func(inst any) Out {
 				wo.setOpt(inst, o)
 				b, err := wo.marshal(inst, data)
-				return Out{Res: outRes(string(b), nil, err, false), View: func() any {
+				return Out{Err: err, Res: outRes(string(b), nil, err, false), View: func() any {
 					return map[string]any{"t": "out", "s": string(b), "w": ""}
 				}}
 			}}
@@ -739,7 +741,7 @@ func prettyMenu() []Kind {
 		return Kind{Name: name, API: "pretty.Writer.Marshal", Run: func(inst any) Out {
 			w := set(inst, o, width, depth, align, senOut)
 			b, err := w.Marshal(data)
-			return Out{Res: outRes(string(b), nil, err, false), View: func() any {
+			return Out{Err: err, Res: outRes(string(b), nil, err, false), View: func() any {
 				return map[string]any{"t": "out", "s": string(b), "w": ""}
 			}}
 		}}
@@ -749,7 +751,7 @@ func prettyMenu() []Kind {
 			w := set(inst, o, width, 3, false, false)
 			fw := &failW{okWrites: okWrites}
 			err := w.Write(fw, data)
-			return Out{Res: outRes("", fw.got, err, false), View: func() any {
+			return Out{Err: err, Res: outRes("", fw.got, err, false), View: func() any {
 				return map[string]any{"t": "out", "s": "", "w": string(fw.got)}
 			}}
 		}}
@@ -805,7 +807,7 @@ func ojPoolParsers() []Kind {
 		return Out{Res: parseRes(v, nil, nil)}
 	}}, Kind{Name: "parse_string", API: "oj.ParseString", Run: func(any) Out {
 		v, err := oj.ParseString(dEsc)
-		return Out{Res: parseRes(v, err, nil), View: func() any { return held(v, err, nil) }}
+		return Out{Err: err, Res: parseRes(v, err, nil), View: func() any { return held(v, err, nil) }}
 	}})
 	return out
 }
@@ -838,7 +840,7 @@ func ojPoolWriters() []Kind {
 	ma := func(name string, data any, args ...any) Kind {
 		return Kind{Name: name, API: "oj.Marshal", Run: func(any) Out {
 			b, err := oj.Marshal(data, args...)
-			return Out{Res: outRes(string(b), nil, err, false), View: func() any {
+			return Out{Err: err, Res: outRes(string(b), nil, err, false), View: func() any {
 				return map[string]any{"t": "out", "s": string(b), "w": ""}
 			}}
 		}}
@@ -847,7 +849,7 @@ func ojPoolWriters() []Kind {
 		return Kind{Name: name, API: "oj.Write", Run: func(any) Out {
 			w := &failW{okWrites: okWrites}
 			err := oj.Write(w, data, args...)
-			return Out{Res: outRes("", w.got, err, false), View: func() any {
+			return Out{Err: err, Res: outRes("", w.got, err, false), View: func() any {
 				return map[string]any{"t": "out", "s": "", "w": string(w.got)}
 			}}
 		}}
@@ -881,7 +883,7 @@ func senPoolWriters() []Kind {
 		return Kind{Name: name, API: "sen.Write", Run: func(any) Out {
 			w := &failW{okWrites: okWrites}
 			err := sen.Write(w, data, args...)
-			return Out{Res: outRes("", w.got, err, false), View: func() any {
+			return Out{Err: err, Res: outRes("", w.got, err, false), View: func() any {
 				return map[string]any{"t": "out", "s": "", "w": string(w.got)}
 			}}
 		}}
